@@ -289,13 +289,72 @@ def c03d(F, R):
             else:
                 R.bad(f"uj|{v}", f"{v} is treated as an unconditional jump under a condition other than `rd == x0`", loc(arm))
         elif v == "Branch":
-            bt = set(ctor_names(arm["body"], "riscv_analysis::parser::inst::BranchType"))
-            flds = {n["name"] for n in walk(arm["body"]) if n.get("k") == "Field"}
-            has_x0 = sum(1 for n in walk(arm["body"]) if n.get("k") == "Path" and n.get("res") == x0)
-            if bt <= {"Beq", "Bge", "Bgeu"} and bt and {"rs1", "rs2"} <= flds and has_x0 >= 2:
-                R.ok("uj|Branch", detail=f"branches {sorted(bt)} on (x0,x0)")
-            else:
-                R.bad("uj|Branch", f"branch kinds {sorted(bt)} treated as always taken (only beq/bge/bgeu on x0,x0 are)", loc(arm))
+            BT = "riscv_analysis::parser::inst::BranchType"
+            b = payload_binding_name(arm)
+
+            class Unx(Exception):
+                pass
+
+            def atom(e):
+                e = peel(e)
+                if e.get("k") == "Field" and peel(e["e"]).get("res") == b:
+                    return ("fld", e["name"])
+                if e.get("k") == "Path" and (e.get("res") or "").startswith(BT + "::"):
+                    return ("bt", short(e["res"]))
+                if e.get("k") == "Path" and (e.get("res") or "").startswith(REG + "::"):
+                    return ("reg", short(e["res"]))
+                if e.get("k") == "MethodCall" and e["name"] in ("get", "get_cloned", "clone"):
+                    return atom(e["recv"])
+                raise Unx(ekey(e))
+
+            def ev(e, env):
+                e0 = e
+                e = peel(e)
+                k = e.get("k")
+                if k == "Binary" and e["op"] in ("And", "Or"):
+                    a, c = ev(e["a"], env), ev(e["b"], env)
+                    return (a and c) if e["op"] == "And" else (a or c)
+                if k == "Unary" and e["op"] == "Not":
+                    return not ev(e["a"], env)
+                if k == "Lit" and e["lit"]["t"] == "bool":
+                    return e["lit"]["v"]
+                if k == "Binary" and e["op"] in ("Eq", "Ne"):
+                    x, y = atom(e["a"]), atom(e["b"])
+
+                    def val(t):
+                        if t[0] == "fld":
+                            if t[1] not in env:
+                                raise Unx("field " + t[1])
+                            return env[t[1]]
+                        if t[0] == "bt":
+                            return t[1]
+                        if t[0] == "reg":
+                            return "x0" if t[1] == "X0" else t[1]
+                    r = val(x) == val(y)
+                    return r if e["op"] == "Eq" else not r
+                if k == "Block" and not e.get("stmts") and e.get("expr"):
+                    return ev(e["expr"], env)
+                raise Unx(ekey(e0)[:60])
+            always = lambda i, r1, r2: (r1 == r2 and i in ("Beq", "Bge", "Bgeu")) or (i == "Bgeu" and r2 == "x0")
+            bad = []
+            sound_hits = 0
+            try:
+                for i in F.variants(BT):
+                    for r1, r2 in (("x0", "x0"), ("x0", "ra"), ("ra", "x0"), ("ra", "ra"), ("ra", "rb")):
+                        env = {"inst": i, "rs1": r1, "rs2": r2}
+                        if ev(arm["body"], env):
+                            if always(i, r1, r2):
+                                sound_hits += 1
+                            else:
+                                bad.append(f"{i.lower()} {r1}, {r2}")
+                if bad:
+                    R.bad("uj|Branch", f"is_unconditional_jump answers true for {bad[:4]}, which is not always taken: the fall-through edge after it is dropped although execution can continue there", loc(arm))
+                elif sound_hits == 0:
+                    R.bad("uj|Branch|never", "no branch form is recognised as always taken any more (beq/bge/bgeu x0,x0 must be)", loc(arm))
+                else:
+                    R.ok("uj|Branch", detail=f"the branch predicate holds only for always-taken forms ({sound_hits} of the 30 abstract operand/kind combinations)")
+            except Unx as ex:
+                R.bad("uj|Branch|unextractable", f"UNEXTRACTABLE branch predicate (unknown atom `{ex}`)", loc(arm))
         else:
             if body_true is False:
                 R.ok(f"uj|{v}")
@@ -846,6 +905,13 @@ def c11d(F, R):
         R.bad("set_exit", f"set_exit is called {len(se)} time(s) / not with the walk's first return", F.fn(run)["sp"])
 
 
+def payload_binding_name(arm):
+    for n in walk(arm["pat"]):
+        if n.get("k") == "PBinding":
+            return n["name"]
+    return None
+
+
 def peel_cond(c):
     while c.get("k") in ("DropTemps", "Use"):
         c = c["e"]
@@ -1015,3 +1081,147 @@ def c12c(F, R):
         R.ok("same-nodes", detail=f"both CFGs are built from `{ctor_args[0]}`")
     else:
         R.bad("same-nodes", f"stage 1 and stage 2 build their CFGs from {ctor_args}", f["sp"])
+
+
+# ============================================================================ C01.e  x0-sourced generated constants
+def _math_op_table(F):
+    """Inst variant -> MathOp variant (from Inst::math_op), with RV64 `*w` forms mapped to their base operator"""
+    from .p_c08 import INST
+    MATHOP = "riscv_analysis::cfg::ops::MathOp"
+    mm = self_match(F, F.method(INST, "math_op"), INST)
+    got = {}
+    for v, arm in arm_table(mm):
+        ops = ctor_names(arm["body"], MATHOP)
+        if v != "_" and len(ops) == 1:
+            got[v] = ops[0]
+    return got
+
+
+def _op_of(variant, table):
+    for cand in (variant, variant[:-1] if variant.endswith("w") else None, (variant[:-2] + "i") if variant.endswith("iw") else None):
+        if cand and cand in table:
+            return table[cand]
+    return None
+
+
+def _claim(body):
+    """what constant an arm claims: 'imm' | int | 'fold00' | None (no claim) | '?'"""
+    AV = "riscv_analysis::analysis::available::AvailableValue::Constant"
+    calls = [c for c in walk(body, pats=False) if c.get("k") == "Call" and callee_of(c) == AV]
+    if not calls:
+        return None
+    a = peel(calls[0]["args"][0])
+    if a.get("k") == "Path" and a.get("res_kind") == "Local":
+        for st in walk(body, pats=False):
+            if st.get("k") == "Let" and st["pat"].get("k") == "PBinding" and st["pat"]["name"] == a["res"] and st.get("init"):
+                a = peel(st["init"])
+    lv = lit_value(a)
+    if isinstance(lv, int) and not isinstance(lv, bool):
+        return lv
+    if a.get("k") == "MethodCall" and a["name"] == "value" and any(f.get("k") == "Field" and f["name"] == "imm" for f in walk(a, pats=False)):
+        return "imm"
+    ops = [c for c in walk(a, pats=False) if c.get("k") == "MethodCall" and c["name"] == "operate"]
+    if ops and [lit_value(x) for x in ops[0]["args"]] == [0, 0] and any(c.get("k") == "MethodCall" and c["name"] == "math_op" for c in walk(a, pats=False)):
+        return "fold00"
+    return "?"
+
+
+@rule("C01", "C01.e.x0-sourced-constants", floor=20)
+def c01e(F, R):
+    """constants generated for instructions whose sources are x0 agree with the operator algebra: op(0, imm) for I-type, op(0, 0) for R-type"""
+    ref = json.load(open(os.path.join(VERIF, "reference", "rv32im_formats.json")))["folding"]
+    lz, a00 = ref["left_zero"], ref["at_zero_zero"]
+    table = _math_op_table(F)
+    gp = F.method(PNODE, "gen_reg_value", trait="HasGenValueInfo")
+    m = self_match(F, gp, PNODE)
+    arms = dict(arm_table(m))
+    IAT = "riscv_analysis::parser::inst::IArithType"
+    AT = "riscv_analysis::parser::inst::ArithType"
+    x0 = REG + "::X0"
+    # ---- I-type: `op rd, x0, imm`
+    ia = arms.get("IArith")
+    if ia is None:
+        raise Anchor("gen_reg_value has no IArith arm")
+    guard = [i for i in walk(ia["body"], pats=False) if i.get("k") == "If"]
+    g_ok = guard and any(f.get("k") == "Field" and f["name"] == "rs1" for f in walk(guard[0]["cond"], pats=False)) and any(p.get("res") == x0 for p in walk(guard[0]["cond"], pats=False) if p.get("k") == "Path")
+    if g_ok:
+        R.ok("IArith|guard", detail="I-type constants are generated only under rs1 == x0")
+    else:
+        R.bad("IArith|guard", "I-type constant generation is not guarded by `rs1 == x0`", loc(ia))
+    inner = None
+    for mt in find_matches(ia["body"]):
+        vs = [v for a in mt["arms"] for k, v in pat_variants(a["pat"]) if k == "path"]
+        if vs and all(v and v.startswith(IAT + "::") for v in vs):
+            inner = mt
+    if inner is None:
+        R.bad("IArith|shape", "UNEXTRACTABLE: no match over IArithType in the IArith arm", loc(ia))
+    else:
+        for v, arm in arm_table(inner):
+            if v == "_":
+                if _claim(arm["body"]) is not None:
+                    R.bad("IArith|_", "wildcard arm claims a constant", loc(arm))
+                continue
+            c = _claim(arm["body"])
+            if c is None:
+                R.ok(f"IArith|{v}", detail="no claim", trivial=True)
+                continue
+            if v == "Lui":
+                if c == "imm":
+                    R.ok("IArith|Lui", detail="lui rd, imm: the parser has already shifted the immediate; claim = imm")
+                else:
+                    R.bad("IArith|Lui", f"lui claims {c}", loc(arm))
+                continue
+            op = _op_of(v, table)
+            want = lz.get(op) if op else None
+            okc = (c == "imm" and want == "y") or (isinstance(c, int) and want == c)
+            if okc:
+                R.ok(f"IArith|{v}", detail=f"{v.lower()} rd, x0, imm: {op}(0, imm) = {'imm' if want == 'y' else want}; claimed {c}")
+            else:
+                R.bad(f"IArith|{v}", f"`{v.lower()} rd, x0, imm` is claimed to produce {c}, but {op}(0, imm) is {'imm' if want == 'y' else ('not a constant function of imm alone' if want is None else want)}", loc(arm))
+    # ---- R-type: `op rd, x0, x0`
+    ar = arms.get("Arith")
+    if ar is None:
+        raise Anchor("gen_reg_value has no Arith arm")
+    guard = [i for i in walk(ar["body"], pats=False) if i.get("k") == "If"]
+    flds = {f["name"] for f in walk(guard[0]["cond"], pats=False) if f.get("k") == "Field"} if guard else set()
+    nx0 = sum(1 for p in walk(guard[0]["cond"], pats=False) if p.get("k") == "Path" and p.get("res") == x0) if guard else 0
+    if {"rs1", "rs2"} <= flds and nx0 >= 2 and all(b["op"] in ("And", "Eq") for b in walk(guard[0]["cond"], pats=False) if b.get("k") == "Binary"):
+        R.ok("Arith|guard", detail="R-type constants are generated only under rs1 == x0 && rs2 == x0")
+    else:
+        R.bad("Arith|guard", "R-type constant generation is not guarded by `rs1 == x0 && rs2 == x0`", loc(ar))
+    # per-variant claims: an inner match over ArithType, or one claim for all variants
+    inner = None
+    for mt in find_matches(ar["body"]):
+        vs = [v for a in mt["arms"] for k, v in pat_variants(a["pat"]) if k == "path"]
+        if vs and all(v and v.startswith(AT + "::") for v in vs):
+            inner = mt
+    per = {}
+    if inner is not None:
+        default = None
+        for v, arm in arm_table(inner):
+            if v == "_":
+                default = _claim(arm["body"])
+            else:
+                per[v] = _claim(arm["body"])
+        for v in F.variants(AT):
+            per.setdefault(v, default)
+    else:
+        c = _claim(guard[0]["then"]) if guard else "?"
+        per = {v: c for v in F.variants(AT)}
+    for v in F.variants(AT):
+        c = per[v]
+        op = _op_of(v, table)
+        want = a00.get(op, a00["default"]) if op else None
+        if c is None:
+            R.ok(f"Arith|{v}", detail="no claim", trivial=True)
+        elif c == "fold00" and op is not None:
+            R.ok(f"Arith|{v}", detail=f"{v.lower()} rd, x0, x0: folded with {op}.operate(0, 0) (semantics decided by C08 R4)")
+        elif c == "fold00":
+            R.ok(f"Arith|{v}", detail="folded when an operator exists", trivial=True)
+        elif want is None and isinstance(c, int):
+            R.ok(f"Arith|{v}", detail=f"{v.lower()} has no folding operator; claim {c} not judged", trivial=True)
+            R.note(f"unconstrained: {v} (no MathOp)")
+        elif c == want:
+            R.ok(f"Arith|{v}", detail=f"{v.lower()} rd, x0, x0 = {want}")
+        else:
+            R.bad(f"Arith|{v}", f"`{v.lower()} rd, x0, x0` is claimed to produce {c}; RV32IM gives {op}(0, 0) = {want}", loc(ar))
